@@ -1,5 +1,6 @@
 """C10 — object filtering keeps exactly the objects satisfying the configured criteria."""
 import copy
+import math
 
 from hypothesis import strategies as st
 
@@ -83,9 +84,22 @@ def obj_lists(draw, tier="quick"):
     for i in range(n):
         lab = draw(st.sampled_from(pool))
         r = draw(st.sampled_from([5.0, 12.0, 25.0, 50.0, 70.0]))
+        pos = [draw(GEN.fl(-1, 1)) * r + 0.013, draw(GEN.fl(-1, 1)) * r - 0.007, draw(GEN.fl(-2, 2))]
+        if draw(st.booleans()):
+            # just inside / just outside one of the bounds in play (1 % .. 8 % off): sensitive to small metric errors,
+            # yet far beyond the 1e-6 decision margin
+            b = draw(st.sampled_from([2.0, 6.0, 8.0, 15.0, 30.0, 60.0])) * (1 + draw(st.sampled_from([0.01, -0.01, 0.03, -0.03, 0.08, -0.08])))
+            how = draw(st.sampled_from(["radial", "radial", "x", "y"]))
+            if how == "radial":
+                ang = draw(GEN.fl(-3.14, 3.14))
+                pos = [b * math.cos(ang), b * math.sin(ang), pos[2]]
+            elif how == "x":
+                pos = [b * draw(st.sampled_from([1, -1])), pos[1] * 0.1, pos[2]]
+            else:
+                pos = [pos[0] * 0.1, b * draw(st.sampled_from([1, -1])), pos[2]]
         objs.append(
             {
-                "p": [draw(GEN.fl(-1, 1)) * r + 0.013, draw(GEN.fl(-1, 1)) * r - 0.007, draw(GEN.fl(-2, 2))],
+                "p": pos,
                 "yaw": draw(GEN.yaws()),
                 "qs": draw(GEN.qsigns()),
                 "size": [1.8, 4.2, 1.5],
@@ -98,7 +112,11 @@ def obj_lists(draw, tier="quick"):
             }
         )
     frame = draw(st.sampled_from(["base_link", "map"]))
-    return {"frame": frame, "ego": draw(GEN.ego_poses()) if frame == "map" else [0.0, 0.0, 0.0], "objs": objs, "is_gt": draw(st.booleans()), "crit": c}
+    ego = draw(GEN.ego_poses()) if frame == "map" else [0.0, 0.0, 0.0]
+    if frame == "map" and draw(st.booleans()):
+        # ego on a slope: [x, y, z, yaw, pitch, roll]; "ego-relative x/y or planar distance" is measured in the ego's own plane
+        ego = [ego[0], ego[1], draw(GEN.fl(-20, 20)), ego[2], draw(st.sampled_from([0.15, -0.25, 0.4, -0.45])) , draw(GEN.fl(-0.3, 0.3))]
+    return {"frame": frame, "ego": ego, "objs": objs, "is_gt": draw(st.booleans()), "crit": c}
 
 
 def _tr_snapshot(tr):
@@ -160,6 +178,8 @@ def objects3d(ctx, d):
         return
     ctx.cls("is_gt" if is_gt else "is_est")
     ctx.cls("frame_" + d["frame"])
+    if len(d["ego"]) == 6:
+        ctx.cls("ego_on_slope")
     ref, skip = [], False
     for i, o in enumerate(d["objs"]):
         k, m = RF.keep_object(_view(o), is_gt, c)
@@ -201,7 +221,7 @@ def objects3d(ctx, d):
     # the ego pose registered in the same TransformDict is updated (as frame interpolation does) and the objects, now
     # expressed for the new pose, are filtered again: same ego-frame coordinates => same kept set
     if d["frame"] == "map" and not skip:
-        ego2 = [d["ego"][0] + 37.5, d["ego"][1] - 12.25, d["ego"][2] + 0.9]
+        ego2 = [d["ego"][0] + 37.5, d["ego"][1] - 12.25, d["ego"][2] + 0.9] if len(d["ego"]) == 3 else [d["ego"][0] + 37.5, d["ego"][1] - 12.25, d["ego"][2] + 1.5, d["ego"][3] + 0.9, -d["ego"][4], d["ego"][5] * 0.5]
         from perception_eval.common.schema import FrameID
 
         with ctx.under_test("filter_objects(after ego pose update)"):
